@@ -122,12 +122,12 @@ where
         3 => g.range(2, 8),
         _ => g.range(0, 64),
     };
-    let mut step = T::of(g.log_uniform(1e-3, 10.0) * scale.min(1.0).max(0.05));
+    let mut step = T::of(g.log_uniform(1e-3, 10.0) * (if scale < 1e-3 { scale } else { scale.min(1.0).max(0.05) }));
     let mut eps = step.f();
     let mut l = l;
     // the public fields step_size / n_leapfrog may be reassigned between steps
     let reassign = g.chance(0.4);
-    let step2 = T::of(g.log_uniform(1e-3, 10.0) * scale.min(1.0).max(0.05));
+    let step2 = T::of(g.log_uniform(1e-3, 10.0) * (if scale < 1e-3 { scale } else { scale.min(1.0).max(0.05) }));
     let l2 = g.range(0, 20);
     let seed = g.next_u64();
     let inits: Vec<Vec<T>> = (0..n_chains).map(|_| (0..d).map(|_| T::of(g.normal() * 1.5 * scale)).collect()).collect();
@@ -434,6 +434,14 @@ where
     StandardNormal: Distribution<T>,
     StandardUniform: Distribution<T>,
 {
+    // narrow targets: every legitimate step size is far below the scalar type's machine epsilon
+    if g.chance(0.06) {
+        let d = g.range(1, 6);
+        let sc = g.log_uniform(1e-10, 1e-8);
+        let t = DiagGauss::new((0..d).map(|_| g.log_uniform(0.5, 2.0) / (sc * sc)).collect(), vec![0.0; d]);
+        rep.count("targets_narrower_than_machine_epsilon");
+        return drive::<T, B, _>(ctx, rep, case, g, t, sc, bname, beps, usize::MAX);
+    }
     match g.below(9) {
         0 => {
             let d = g.range(1, 16);
